@@ -114,6 +114,7 @@ Qed.
 Lemma f_names_hh st h : same_hh st (fst (fst (f_names st h))).
 Proof.
   unfold f_names. destruct (h_names h); simpl; [apply same_hh_refl|].
+  destruct (h_fresh h); [simpl; apply same_hh_refl|].
   destruct (snames st (h_path h) (h_mode h)) as [st1 r] eqn:S. simpl.
   pose proof (snames_hh st (h_path h) (h_mode h)) as H. rewrite S in H. exact H.
 Qed.
